@@ -120,7 +120,7 @@ func (tds *Conn) NewChannel() (*Channel, error) {
 	setup.Data = nil
 
 	tdsChan.CurrentHeaderType = TDS_BUF_SETUP
-	if err := tdsChan.sendPacket(setup); err != nil {
+	if err := tdsChan.sendPacket(setup, true); err != nil {
 		return nil, fmt.Errorf("error sending setup for channel %d: %w",
 			tdsChan.channelId, err)
 	}
@@ -198,7 +198,7 @@ func (tdsChan *Channel) Close() error {
 		teardown.Data = nil
 		tdsChan.CurrentHeaderType = TDS_BUF_CLOSE
 
-		if err := tdsChan.sendPacket(teardown); err != nil {
+		if err := tdsChan.sendPacket(teardown, true); err != nil {
 			me = multierror.Append(me,
 				fmt.Errorf("error sending teardown for channel %d: %w",
 					tdsChan.channelId, err))
@@ -574,8 +574,11 @@ func (tdsChan *Channel) sendPackets(ctx context.Context, onlyFull bool) error {
 		case <-tdsChan.tdsConn.ctx.Done():
 			return fmt.Errorf("connection context is closed: %w", tdsChan.tdsConn.ctx.Err())
 		default:
-			// Only the last packet should not be full.
-			if i == tdsChan.queueTx.indexPacket && tdsChan.queueTx.indexData < tdsChan.tdsConn.PacketBodySize() {
+			// Only the last packet should not be full. A packet is full
+			// by its own size - the size of the connection may have
+			// been changed by the server since the packet was created.
+			last := false
+			if i == tdsChan.queueTx.indexPacket && tdsChan.queueTx.indexData < len(packet.Data) {
 				if onlyFull {
 					// Packet is not exhausted and only exhausted packets
 					// should be sent. Return.
@@ -586,11 +589,12 @@ func (tdsChan *Channel) sendPackets(ctx context.Context, onlyFull bool) error {
 				// length
 				packet.Header.Length = uint16(PacketHeaderSize + tdsChan.queueTx.indexData)
 				packet.Data = packet.Data[:tdsChan.queueTx.indexData]
+				last = true
 			}
 
 			// TODO maybe check if data is empty - could be an issue
 
-			if err := tdsChan.sendPacket(packet); err != nil {
+			if err := tdsChan.sendPacket(packet, last); err != nil {
 				return fmt.Errorf("error sending packet %s: %w", packet, err)
 			}
 		}
@@ -611,7 +615,7 @@ func (tdsChan *Channel) sendPackets(ctx context.Context, onlyFull bool) error {
 
 		eom := NewPacket(PacketHeaderSize)
 		eom.Data = nil
-		if err := tdsChan.sendPacket(eom); err != nil {
+		if err := tdsChan.sendPacket(eom, true); err != nil {
 			return fmt.Errorf("error sending end of message packet %s: %w", eom, err)
 		}
 	}
@@ -619,7 +623,9 @@ func (tdsChan *Channel) sendPackets(ctx context.Context, onlyFull bool) error {
 	return nil
 }
 
-func (tdsChan *Channel) sendPacket(packet *Packet) error {
+// sendPacket writes a packet to the server. last marks the packet as
+// the end of the message.
+func (tdsChan *Channel) sendPacket(packet *Packet, last bool) error {
 	packet.Header.MsgType = tdsChan.CurrentHeaderType
 
 	// Channel 0 does not need PacketNr or Window
@@ -630,8 +636,7 @@ func (tdsChan *Channel) sendPacket(packet *Packet) error {
 		packet.Header.Window = uint8(tdsChan.window)
 	}
 
-	if len(packet.Data) != tdsChan.tdsConn.PacketBodySize() {
-		// Data portion is not exhausted, this is the last packet.
+	if last {
 		packet.Header.Status |= TDS_BUFSTAT_EOM
 	}
 	tdsChan.txUnterminated = packet.Header.Status&TDS_BUFSTAT_EOM != TDS_BUFSTAT_EOM
